@@ -1,5 +1,6 @@
 import DVP.Lemmas.LoopReset
 import DVP.Lemmas.LoopIdem
+import DVP.Lemmas.LoopEvReset
 /-!
 # C13 — results do not depend on call history; reset restores the initial state
 
@@ -34,14 +35,14 @@ theorem reset_restores (cfg : Cfg ℚ) (t0 tf dt : ℚ) (ops : List Op)
 
 /-- **A call made when already at the target changes nothing** (not even the status). -/
 theorem at_target_noop (cfg : Cfg ℚ) (s : Sys ℚ) (target : ℚ) (orc : Oracle ℚ) (fuel : Nat)
-    (hat : |target - s.tcur| < cfg.eps) : (integrate cfg s target orc fuel).sys = s := by
+    (hat : |target - s.tcur| < cfg.tolEps) : (integrate cfg s target orc fuel).sys = s := by
   unfold integrate
   split
   · rfl
   · rw [if_pos (by rw [DVP.Brent.absC_rat]; exact hat)]
 
 /-- **… and so does a repeated call**: once `integrate(T)` has ended normally (its loop guard became false —
-the target is reached to within `tolEps`, which may be wider than the `eps` window of `at_target_noop`),
+the target is reached to within `tolEps`, or the step size is zero),
 calling `integrate(T)` again makes no integrator call and records no sample, whatever the integrator and the
 callbacks would do. -/
 theorem repeated_call_idle (cfg : Cfg ℚ) (s : Sys ℚ) (target : ℚ) (orc orc' : Oracle ℚ) (fuel fuel' : Nat)
@@ -50,6 +51,24 @@ theorem repeated_call_idle (cfg : Cfg ℚ) (s : Sys ℚ) (target : ℚ) (orc orc
     (integrate cfg (integrate cfg s target orc fuel).sys target orc' fuel').reqs = [] ∧
     (integrate cfg (integrate cfg s target orc fuel).sys target orc' fuel').iters = 0 :=
   second_call_idle cfg s target orc orc' fuel fuel' h
+
+/-- **… in fact nothing at all** (since the repair `fix: a call made when already at the target …`): after a call
+that ended normally with a non-zero step size, the same call again returns the system unchanged — samples, step
+size, status, buffer.  Before the repair the early-return test used `eps` while the loop guard used `tolEps`: a
+system that had stopped between the two (a few ulp short of the target, as every run with a rounded last step
+does) went through the set-up of a new call, which clipped `dt` to half the remaining rounding-level distance;
+the next call to anywhere else then crawled at `dt ≈ 1e-16`. -/
+theorem repeated_call_changes_nothing (cfg : Cfg ℚ) (s : Sys ℚ) (target : ℚ) (orc orc' : Oracle ℚ) (fuel fuel' : Nat)
+    (h : (integrate cfg s target orc fuel).guardExit = true) (hdt : (integrate cfg s target orc fuel).sys.dt ≠ 0) :
+    (integrate cfg (integrate cfg s target orc fuel).sys target orc' fuel').sys = (integrate cfg s target orc fuel).sys := by
+  have hat : |target - (integrate cfg s target orc fuel).sys.tcur| < cfg.tolEps := by
+    rcases first_call_state cfg s target orc fuel h with h1 | h1
+    · rwa [DVP.Brent.absC_rat] at h1
+    · by_contra hge
+      have : DV.Loop.guard cfg target (integrate cfg s target orc fuel).sys = true :=
+        (guard_rat cfg target _).mpr ⟨hdt, not_lt.mp hge⟩
+      rw [h1] at this; exact absurd this (by simp)
+  exact at_target_noop cfg _ target orc' fuel' hat
 
 /-- non-vacuity: a run of four steps that ends through the guard -/
 example : (integrate (α := ℚ) { eps := 1/2^50, tolEps := 1/2^47, half := 1/2 } (construct (α := ℚ) 0 1 (3/10)) 1
@@ -65,5 +84,41 @@ example : Obs (DV.Loop.reset ([Op.integrate 1 (fun k _ h => if k = 1 then { ret 
       Op.setDt (1/7), Op.integrate (-2) (fun _ _ h => { ret := .ok h h }) 50].foldl
       (applyOp { eps := 1/2^50, tolEps := 1/2^47, half := 1/2 }) (construct (α := ℚ) 0 1 (3/10)))) =
     ([0], 3/10, 0, 0, 1) := by decide +kernel
+
+/-- **`reset()` after anything, events included**: after any sequence of calls with events (terminal stops, raising
+event functions, faults inside the nested call of a terminal event, callbacks), calls without events, `dt`
+assignments and resets, `reset()` leaves the time-grid state of the freshly constructed system, **no recorded
+event and no dense-output piece**.  (The op machine is the one the model driver runs against the implementation:
+`DV.LoopEv` / `runScenarioEv`.) -/
+theorem reset_restores_after_events (cfg : DV.LoopEv.CfgEv ℚ) (t0 tf dt : ℚ) (ops : List DVP.LoopEv.OpEv)
+    (hc : (construct t0 tf dt).crashed = false) :
+    let st := DVP.LoopEv.applyOpEv cfg (ops.foldl (DVP.LoopEv.applyOpEv cfg) { sys := construct t0 tf dt, evs := [], kn := [] }) .reset
+    Obs st.sys = Obs (construct t0 tf dt) ∧ st.evs = [] ∧ st.kn = [] := by
+  have hcon : (construct t0 tf dt).ts = [t0] ∧ (construct t0 tf dt).t0 = t0 ∧ (construct t0 tf dt).tf = tf ∧
+      (construct t0 tf dt).dt0 = dt ∧ (construct t0 tf dt).dt = fixDir dt (tf - t0) ∧ (construct t0 tf dt).status = 0 := by
+    unfold construct at hc ⊢
+    split
+    · exact ⟨rfl, rfl, rfl, rfl, rfl, rfl⟩
+    · rename_i h; simp [h] at hc
+  obtain ⟨c1, c2, c3, c4, c5, c6⟩ := hcon
+  have hne : (construct t0 tf dt).ts ≠ [] := by rw [c1]; simp
+  have hs := DVP.LoopEv.applyOpsEv_static cfg ops { sys := construct t0 tf dt, evs := [], kn := [] } hne
+  refine ⟨?_, rfl, rfl⟩
+  show Obs (DV.Loop.reset (ops.foldl (DVP.LoopEv.applyOpEv cfg) { sys := construct t0 tf dt, evs := [], kn := [] }).sys) = _
+  unfold Obs DV.Loop.reset
+  simp only [hs.t0, hs.tf, hs.dt0, hs.first, c1, c2, c3, c4, c5, c6]
+  simp
+
+/-- non-vacuity: a call with a terminal event, a plain continuation, a call with an event function that raises, then reset -/
+example :
+    let cfg : DV.LoopEv.CfgEv ℚ := { loop := { eps := 1/2^50, tolEps := 1/2^47, half := 1/2 }, dupTol := 1/2^30 }
+    let p : DV.Events.Probe ℚ := { root := 9/20, success := true, gm := -1, gc := 0, gp := 1, fields := [], direction := 0, terminal := true }
+    let o1 : DV.LoopEv.OracleEv ℚ := fun k _ h =>
+      { base := { ret := .ok h h }, probes := if k = 1 then [p] else [], nested := fun _ _ h => { ret := .ok h h }, nestedFuel := 10 }
+    let o2 : DV.LoopEv.OracleEv ℚ := fun k _ h => { base := { ret := .ok h h }, evRaise := decide (k = 1) }
+    let ops := [DVP.LoopEv.OpEv.evint 1 1 o1 50, .integrate (7/10) (fun _ _ h => { ret := .ok h h }) 50, .evint 1 1 o2 50]
+    let st := ops.foldl (DVP.LoopEv.applyOpEv cfg) { sys := construct 0 1 (3/10), evs := [], kn := [] }
+    st.evs = [(0, 9/20)] ∧ st.sys.status = 3 ∧ st.kn.length + 1 = st.sys.ts.length ∧
+      (DVP.LoopEv.applyOpEv cfg st .reset).sys.ts = [0] := by decide +kernel
 
 end DVP.C13
